@@ -15,4 +15,4 @@ Extraction "bitsx.ml"
   BitmapRank2.get_bits BitmapRank2.true_pos
   Bits.encode_trie Bits.trie_wf Bits.init_vars Bits.node_count Bits.get_view Bits.get_node
   Bits.ith_leaf_bytes Bits.bitstr_of_nibs Bits.bitstr_len Bits.path_to_index Bits.index_to_path
-  Bits.set_bits_below Msg.mgetid Msg.mget.
+  Bits.set_bits_below Msg.mgetid Msg.mget Msg.msearchid.
